@@ -252,10 +252,24 @@ fn linearizable(sc: &Scenario, start: &Model, must: &[Done], may: &[(usize, usiz
                     continue;
                 }
                 let op = &sc.threads[items[i].tid][items[i].k];
-                let (m2, r) = model_step(m, op);
+                let (mut m2, r) = model_step(m, op);
                 if let Some(obs) = &items[i].res {
                     if !accept(op, &r, obs, m) {
-                        continue;
+                        // an operation REFUSED while a drop of its KG is in flight (the engine keeps a tombstone for
+                        // the duration of the drop: "is being dropped, cannot create") is a refusal without effect,
+                        // whichever side of the drop it is ordered on; nothing the property speaks about depends on it
+                        let kg_of = |o: &SOp| match o {
+                            SOp::Ins(k, _) | SOp::Del(k, _) | SOp::CreateKg(k) | SOp::RegRule(k) | SOp::Query(k) | SOp::QueryP(k) | SOp::DropKg(k) => Some(*k),
+                            _ => None,
+                        };
+                        let overlaps = |a: &It, b: &It| !(a.ret.is_some_and(|r| r < b.call) || b.ret.is_some_and(|r| r < a.call));
+                        let refused_during_drop = *obs == Res::Err
+                            && !matches!(op, SOp::DropKg(_))
+                            && (0..n).any(|j| j != i && matches!(&sc.threads[items[j].tid][items[j].k], SOp::DropKg(k) if Some(*k) == kg_of(op)) && overlaps(&items[i], &items[j]));
+                        if !refused_during_drop {
+                            continue;
+                        }
+                        m2 = m.clone();
                     }
                 }
                 used[i] = true;
